@@ -234,8 +234,9 @@ void harness_request_parse(void)
 			for (i = 0; i < C37_QMAX; i++) if (i < c37_ref_nq && i < sr->base.nquestions) {
 				struct evdns_server_question *q = sr->base.questions[i];
 				VP_ASSERT(q->type == (int)c37_rq[i].type && q->dns_question_class == (int)c37_rq[i].klass, "C37: delivered question type/class != message");
-				{ int c, same = 1, live = 1; /* C-string equality, by index */
-				  for (c = 0; c <= C37_TEXT; c++) if (live) { if (q->name[c] != c37_text[c37_rq[i].logidx][c]) same = 0; if (q->name[c] == 0) live = 0; }
+				{ int c, same = 1, live = 1; /* C-string equality; the name is read as evdns users do, through a char pointer */
+				  const char *qn = (const char *)q + evutil_offsetof(struct evdns_server_question, name);
+				  for (c = 0; c <= C37_TEXT; c++) if (live) { if (qn[c] != c37_text[c37_rq[i].logidx][c]) same = 0; if (qn[c] == 0) live = 0; }
 				  VP_ASSERT(same, "C37: delivered question name != parsed name"); }
 			}
 			VP_ASSERT(sr->max_udp_reply_size == c37_ref_udp, "C37: reply size limit != max(512, OPT payload size)");
@@ -254,7 +255,9 @@ void harness_request_parse(void)
 		dnsref_header(packet, length, &h);
 		VP_ASSERT(c37_resp_err == 4 && length >= 12 && h.qr == 0 && h.opcode != 0, "C37: automatic response other than NOTIMPL for a non-standard opcode");
 		VP_ASSERT(verdict != C37_DROP, "C37: NOTIMPL sent for a malformed packet");
+#ifndef C37_KF_EXCLUDE_OPCODE
 		VP_WITNESS("NOTIMPL answered");
+#endif
 	} else {
 		if (c37_failed == 0) {
 #ifndef C37_KF_EXCLUDE_OPCODE
@@ -263,7 +266,9 @@ void harness_request_parse(void)
 			VP_ASSERT(verdict != C37_DELIVER, "C37: well-formed standard query dropped");
 		}
 		if (verdict == C37_DROP && length >= 12) VP_WITNESS("malformed query dropped");
+#ifdef C37_ALLOC_FAIL
 		if (c37_failed) VP_WITNESS("dropped after an allocation failure");
+#endif
 	}
 #ifdef C37_KF_EXCLUDE_OPCODE
 	/* finding C37-notimpl-dead: with the opcode bits masked away first, non-standard opcodes are
